@@ -1,5 +1,5 @@
 \* exhaustive, repaired design (both switches on): the property holds without exception
-\* measured: 1 290 distinct states, 504 369 transitions, depth 9, ~20 s on 4 workers
+\* measured: 462 distinct states, 203 103 transitions, depth 6, ~9 s on 4 workers
 CONSTANTS
   MaxLen = 3
   MaxReverts = 1
